@@ -60,7 +60,7 @@ class C02(object):
             'first n sweeps; on normal return the offline residual monitor judges every equation of the submitted '
             'text for every k>=1; distinct = hash of the case; non-trivial = normal return with >= 1 simultaneous '
             'equation judged (hostile: any loud or judged outcome)')
-    assumptions = ['residual bound 8*(1+|J_i|_1)*tol*S + 1e-12*S is scheme-agnostic (Jacobi, damped Jacobi, Gauss-Seidel)',
+    assumptions = ['residual bound 2*(1+|J_i|_1)*tol*S + 1e-12*S is scheme-agnostic (Jacobi, damped Jacobi, Gauss-Seidel)',
                    'non-linear systems only with tol <= 1e-2 (first-order bound)',
                    'derived-only exactness is demanded only with reduction on and only for variables that a '
                    'conservative independent graph analysis of the submitted text proves unreferenced']
